@@ -1,7 +1,7 @@
 """C13 -- including a file equals reading its text in place."""
 from ..core import Case, hx
 from .. import gen
-from ..gen import Opt, schema_lines, MULTI, TITLE, NOCASE
+from ..gen import Opt, schema_lines, MULTI, TITLE, NOCASE, LIST
 from .C06 import with_include
 from .C01 import hand_schemas
 
@@ -142,12 +142,39 @@ def generate(rng, tier):
             cases.append(Case("i%d" % n, lines, {"kind": kind, "nfiles": len(files), "depth": depth, "tail_err": tail_err, "use_sp": use_sp,
                                                   "unbalanced": unbalanced}))
             n += 1
+    # include() in a parse that a callback of another, still running parse started: context 1 must end up as the model says
+    # the same text leaves it when parsed on its own (MPB: the model runs the nested text by itself), and the outer parse
+    # goes on as if nothing had happened - at top level, inside a section, and from inside an included file
+    nschema = [Opt("x", "int", 0, 0), Opt("y", "int", 0, 0), Opt("z", "int", 0, 0), Opt("l", "int", LIST, None),
+               Opt("sec", "sec", 0, None, "-", [Opt("w", "int", 0, 0), Opt("include", "func", 0, None, "I"), Opt("hook", "func", 0, None, "U")]),
+               Opt("include", "func", 0, None, "I"), Opt("hook", "func", 0, None, "U")]
+    nsl = schema_lines(nschema)
+    nested_texts = [b'x = 1\ninclude("g.conf")\ny = 2\n', b'include("g.conf")\ninclude("g2.conf")\ny = 3\nnosuch = 1\n',
+                    b'sec { w = 1 include("gs.conf") }\ny = 4\n', b'include("deep.conf")\ny = 5\nl += {9}\n',
+                    b'x = 1\ninclude("missing.conf")\ny = 6\n', b'include("g.conf")\n']
+    hosts = [b'x = 7\nhook("%s")\ny = 8\nl = {1, 2}\n', b'sec { w = 3 hook("%s") w = 4 }\nz = 9\n', b'include("host.conf")\nz = 10\n',
+             b'hook("%s")\nhook("%s")\ninclude("g2.conf")\nz = 11\n']
+    for nt in nested_texts:
+        for host in hosts:
+            arg = (b"nest:" + nt).replace(b"\\", b"\\\\").replace(b'"', b'\\"').replace(b"\n", b"\\n")
+            cdir = "%s/nest%d" % (root, n)
+            fl = [("g.conf", b"z = 3\nl = {4}\n"), ("g2.conf", b"l += {5}\n"), ("gs.conf", b"w = 6\n"), ("deep.conf", b'include("g.conf")\nx = 12\n'),
+                  ("host.conf", b'x = 13\nhook("' + arg + b'")\ny = 14\n')]
+            lines = nsl + ["CWD " + hx(cdir)] + ["FILE %s reg %s" % (hx(nm), hx(c)) for nm, c in fl]
+            lines += ["X 0 0", "X 1 0", "PB 0 " + hx(host.replace(b"%s", arg)), "D 0", "MPB 1 " + hx(nt)]
+            if host.count(b"%s") == 2:
+                lines.append("MPB 1 " + hx(nt))
+            lines += ["D 1", "PB 1 " + hx(b'include("g2.conf")\n'), "D 1"]
+            cases.append(Case("i%d" % n, lines, {"kind": "nested", "nfiles": len(fl), "depth": 0, "tail_err": False, "use_sp": False, "unbalanced": False}))
+            n += 1
     return cases
 
 
 def project(lines, case):
     out = []
     for l in lines:
+        if l.startswith("T nest"):
+            continue        # the harness' report about the parse its callback started (the model runs that text on its own: MPB)
         if l.startswith("G "):
             w = l.split()
             out.append("G %s %s %s" % (w[1], w[2], w[3]))
@@ -174,6 +201,11 @@ def oracle(case, il, ctx):
     hz = [l for l in il if l.startswith("H ")]
     if hz:
         return "hazard: " + hz[0]
+    if case.meta.get("kind") == "nested":
+        for l in il:
+            if l.startswith("I ") and l != "I 0 0":
+                return "include stack / descriptor table not restored after a parse: " + l
+        return None
     ds = _dumps(il)
     if len(ds) < 2:
         return "malformed output"
